@@ -1,6 +1,7 @@
 package checks
 
 import (
+	"bytes"
 	"fmt"
 	"go/ast"
 	"go/parser"
@@ -11,7 +12,9 @@ import (
 	"sort"
 	"strconv"
 	"strings"
+	"time"
 
+	"github.com/zmap/zlint/v3/formattedoutput"
 	"github.com/zmap/zlint/v3/lint"
 
 	"verif/corpus"
@@ -139,6 +142,7 @@ func c12Once(c *mon.Ctx) {
 		c.V("count-mismatch", fmt.Sprintf("registry has %d lints, the lint tree has %d registration call sites", len(names), len(sites)), "", nil, nil)
 	}
 	c12Invariants(c, g, names, inReg, "default build")
+	c12UnderUse(c, g, names, inReg)
 	c.R.Sample(4, map[string]any{"census_sites": len(sites), "registry": len(names), "dirs": dirs, "first_sites": sites[:3]})
 }
 
@@ -403,4 +407,125 @@ func init() {
 			return gates
 		},
 	})
+}
+
+// c12UnderUse: the registry of the default build must still be what it was after it has been USED - every seed of
+// every kind linted, objects re-dated to every distinct effective / ineffective date of the registry (-1 s, 0, +1 s;
+// so that any subset of lints is "not effective" at some point), listings written, configurations generated,
+// selections filtered. Compared: the name list, each kind's Lints() (same lint objects in the same order) and the
+// source list; then the full invariants again.
+func c12UnderUse(c *mon.Ctx, g lint.Registry, names []string, inReg map[string]bool) {
+	type snap struct {
+		names, sources string
+		lints          map[corpus.Kind][]any
+	}
+	take := func() snap {
+		var src []string // Sources() promises a set, not an order (it is built from a map)
+		for _, x := range g.Sources() {
+			src = append(src, string(x))
+		}
+		sort.Strings(src)
+		s := snap{names: strings.Join(g.Names(), ","), sources: strings.Join(src, ","), lints: map[corpus.Kind][]any{}}
+		for _, l := range g.CertificateLints().Lints() {
+			s.lints[corpus.Cert] = append(s.lints[corpus.Cert], l)
+		}
+		for _, l := range g.RevocationListLints().Lints() {
+			s.lints[corpus.CRL] = append(s.lints[corpus.CRL], l)
+		}
+		for _, l := range g.OcspResponseLints().Lints() {
+			s.lints[corpus.OCSP] = append(s.lints[corpus.OCSP], l)
+		}
+		return s
+	}
+	before := take()
+	instants := map[int64]time.Time{}
+	for _, li := range Inv {
+		for _, t := range []time.Time{li.Meta.EffectiveDate, li.Meta.IneffectiveDate} {
+			if !t.IsZero() && t.Year() > 1950 && t.Year() < 2049 {
+				for _, d := range []time.Duration{-time.Second, 0, time.Second} {
+					instants[t.Add(d).Unix()] = t.Add(d)
+				}
+			}
+		}
+	}
+	var when []time.Time
+	for _, t := range instants {
+		when = append(when, t)
+	}
+	sort.Slice(when, func(i, j int) bool { return when[i].Before(when[j]) })
+	uses := 0
+	compare := func(after string) bool {
+		now := take()
+		ok := true
+		if now.names != before.names {
+			c.V("registry-changed-by-use|names", "Names() of the global registry changed "+after, "", nil, nil)
+			ok = false
+		}
+		if now.sources != before.sources {
+			c.V("registry-changed-by-use|sources", "Sources() of the global registry changed "+after, "", nil, nil)
+			ok = false
+		}
+		for _, k := range []corpus.Kind{corpus.Cert, corpus.CRL, corpus.OCSP} {
+			a, b := before.lints[k], now.lints[k]
+			same := len(a) == len(b)
+			for i := 0; same && i < len(a); i++ {
+				same = a[i] == b[i]
+			}
+			if !same {
+				c.V("registry-changed-by-use|listing|"+k.String(), fmt.Sprintf("the %s Lints() listing of the global registry (%d lints) is no longer the same lint objects in the same order %s (now %d)", k, len(a), after, len(b)), "", nil, nil)
+				ok = false
+			}
+		}
+		return ok
+	}
+	lintOne := func(o *mon.Obj, how string) bool {
+		if o == nil {
+			return true
+		}
+		rs, pv, _ := o.Lint(g)
+		uses++
+		if pv == nil && rs != nil && uses%97 == 0 {
+			old := os.Stdout
+			if null, err := os.OpenFile(os.DevNull, os.O_WRONLY, 0); err == nil {
+				os.Stdout = null
+				formattedoutput.OutputSummary(rs, uses%2 == 0)
+				os.Stdout = old
+				null.Close()
+			}
+		}
+		if o.Kind != corpus.Cert || uses%50 == 0 {
+			return compare("after linting " + o.Kind.String() + " " + o.Name + " (" + how + ")")
+		}
+		return true
+	}
+	ok := true
+	for _, k := range []corpus.Kind{corpus.OCSP, corpus.CRL, corpus.Cert} {
+		for n, idx := range W.ByKind[k] {
+			if !ok {
+				break
+			}
+			base := W.Objs[idx]
+			ok = lintOne(base.Reparse(), "seed")
+			if k == corpus.Cert && n >= 40 {
+				continue
+			}
+			for _, t := range when {
+				if !ok {
+					break
+				}
+				ok = lintOne(redate(base, t, 0), "re-dated to "+fmtDate(t))
+			}
+		}
+	}
+	var buf bytes.Buffer
+	g.WriteJSON(&buf)
+	_, _ = g.DefaultConfiguration()
+	rng := c.Rng(-12, 0)
+	for k := 0; k < 200; k++ {
+		_, _ = g.Filter(randFilter(rng, k%3 == 0))
+	}
+	compare("after listing, default configuration and 200 Filter calls")
+	c12Invariants(c, g, g.Names(), inReg, "default build after use")
+	c.R.Count("registry_uses", int64(uses))
+	c.R.Note("registry_use_instants", len(when))
 }
